@@ -189,10 +189,10 @@ def _parse_struct_items(body):
 
 
 class Tables:
-    def __init__(self, db):
+    def __init__(self, db, dir=None):
         self.db = db      # 'zonedb' | 'zonedbx'
         self.scope = 'basic' if db == 'zonedb' else 'extended'
-        d = os.path.join(build.REPO, 'src', 'ace_time', db)
+        d = dir or os.path.join(build.REPO, 'src', 'ace_time', db)
         self.dir = d
         self.policies = {}    # name -> dict(rules=[(raw, fields)], letters=[...], numRules=, numLetters=)
         self.zones = {}       # zone full name -> dict(var=, id=, eras=[(raw, fields)], numEras=, transitionBufSize=, policy refs)
